@@ -21,6 +21,7 @@ import (
 	"encoding/json"
 	"flag"
 	"fmt"
+	"github.com/google/certificate-transparency-go/x509"
 	"io"
 	"math/big"
 	"net/http"
@@ -606,7 +607,7 @@ func (k *checker) decodeOracle(w *world, idx int, g stored) {
 	switch {
 	case pan:
 		k.viol("decode: panic in LogEntryFromLeaf kind="+kind, msg+"\n"+stack, d)
-	case err != nil || rerr != nil:
+	case x509.IsFatal(err) || e == nil || rerr != nil:
 		k.viol("decode: LogEntryFromLeaf fails on a served entry kind="+kind, fmt.Sprintf("index %d (%s): LogEntryFromLeaf err=%v, RawLogEntryFromLeaf err=%v", idx, s.label, err, rerr), d)
 	default:
 		if m := entryMismatch(e, idx, s); m != "" {
